@@ -157,7 +157,7 @@ def build_wire(w):
 
 
 def build_msg(w):
-    rc, qs, recs = w
+    rc, qs, recs = w[:3]
     m = dns.message.Message(id=4711)
     m.flags = dns.flags.QR | dns.flags.AA
     m.set_rcode(rc)
@@ -578,8 +578,8 @@ class SigningTCP:
     """a server end that TSIG-signs the scripted messages (RFC 8945 multi-message rules) once it has seen
     the query's MAC; signed[i] says whether message i carries a TSIG"""
 
-    def __init__(self, msgs, signed):
-        self.msgs, self.signed = msgs, signed
+    def __init__(self, msgs):
+        self.msgs, self.signed = msgs, [m[3] for m in msgs]
         self.buf, self.pos, self.q = b"", 0, b""
 
     def send(self, data):
@@ -612,13 +612,13 @@ class SigningTCP:
 
 
 def run_tsig(case):
-    _, zk, rel, rdt, ser, z0, msgs, signed = case[:8]
+    _, zk, rel, rdt, ser, z0, msgs = case[:7]
     z = build_zone(zk % 3, rel, z0)
     q = dns.message.make_query(ORIGIN, rdt)
     q.use_tsig(TSIG_KEYRING)
     code = 0
     try:
-        for _ in dns.query._inbound_xfr(z, SigningTCP(msgs, signed), q, ser, None, None):
+        for _ in dns.query._inbound_xfr(z, SigningTCP(msgs), q, ser, None, None):
             pass
     except Exception as e:  # noqa
         c = exc_code(e)
@@ -1460,7 +1460,7 @@ def legacy_cases(ctx, rng, n):
 
 
 def tsig_cases(ctx, rng, n):
-    """TSIG-signed transfers (oracle only): every message signed; only some signed (first and last always);
+    """TSIG-signed transfers (the message carries a had_tsig flag in the model): every message signed; only some signed (first and last always);
     the last message unsigned (RFC 8945 5.3.1: must be rejected)"""
     for _ in range(n):
         zk, rel = rng.randrange(3), rng.randrange(2)
@@ -1482,11 +1482,12 @@ def tsig_cases(ctx, rng, n):
         else:
             signed = [1] + [rng.randrange(2) for _ in range(k - 2)] + [0]
             kind, tag = "tsig-last-unsigned", MUSTERR
-        yield kind, [11, zk, rel, rdt, ser, zdump(chain[0]), msgs, signed, [tag, zdump(chain[-1])]]
+        msgs = [m + [sg] for m, sg in zip(msgs, signed)]
+        yield kind, [11, zk, rel, rdt, ser, zdump(chain[0]), msgs, [tag, zdump(chain[-1])]]
 
 
 def in_model(kind, case):
-    return case[0] not in (9, 11)
+    return case[0] != 9
 
 
 def misc_cases(ctx, rng):
@@ -1602,7 +1603,7 @@ def oracle(ctx, kind, case, out):
     if op == 11:
         code, dump = out
         z0 = case[5]
-        tag, target = case[8]
+        tag, target = case[7]
         if code != 0 and dump != z0:
             fail("an error was reported but the zone is not what it was before the transfer", sig="error-after-apply")
         if tag == VALID and (code != 0 or dump != target):
